@@ -6,5 +6,11 @@ var props = []prop{
 		Assumptions: []string{"virtual time of testing/synctest equals the time the transport reads via time.Now", "reference age/lifetime arithmetic in harness/oracle (self-tested)"},
 		Parts: []part{
 			{Name: "grid", Pkg: "rfc", Test: "TestC01Grid", Batches: [2]int{8, 16}},
+			{Name: "fuzz", Pkg: "rfc", Test: "TestFuzzC01", Race: true, Batches: [2]int{8, 16}, DeathIsViolation: false},
 		}},
+	{ID: "C02", Level: "exploration", Rule: "fuzz", Parts: []part{{Name: "fuzz", Pkg: "rfc", Test: "TestFuzzC02", Race: true, Batches: [2]int{8, 16}}}},
+	{ID: "C10", Level: "fault_enumeration", Rule: "fuzz", Parts: []part{{Name: "fuzz", Pkg: "rfc", Test: "TestFuzzC10", Race: true, Batches: [2]int{8, 16}, DeathIsViolation: true}}},
+	{ID: "C11", Level: "exploration", Rule: "fuzz", Parts: []part{{Name: "fuzz", Pkg: "rfc", Test: "TestFuzzC11", Race: true, Batches: [2]int{8, 16}}}},
+	{ID: "C16", Level: "exploration", Rule: "fuzz", RaceIsViolation: true, Parts: []part{{Name: "fuzz", Pkg: "rfc", Test: "TestFuzzC16", Race: true, Batches: [2]int{8, 16}, DeathIsViolation: true}}},
+	{ID: "C18", Level: "exploration", Rule: "fuzz", Parts: []part{{Name: "fuzz", Pkg: "rfc", Test: "TestFuzzC18", Race: true, Batches: [2]int{8, 16}}}},
 }
